@@ -1,10 +1,15 @@
 (* Props/C10.v — flows are independent except for global variables and counts.
    A flow is a record (call stack with its threads and temporaries, output
    stream, choices).  Switching and removing move whole records; the content of
-   no flow changes.  Interleaving independence of stepping is NOT a theorem here
-   (see the partial note in tools/props/c10.py). *)
+   no flow changes.  FOOTPRINT of the interpreter (Shell/FlowFrame, FlowFootprint): every
+   host operation on the current flow — all forms of continue, choose, jump, evaluate a
+   function, set a variable — commutes with an arbitrary replacement of the parked flows,
+   for the whole interpreter model; hence (1) parked flows are literally untouched and
+   (2) nothing the current flow returns, logs or stores depends on them.  What is NOT a
+   theorem: independence through the SHARED globals / visit counts ("disjoint knots and
+   variables" of the interleaving corollary) — see the partial note in tools/props/c10.py. *)
 From Ink.Engine Require Import Api Tie.
-From Ink.Shell Require Import FlowProofs.
+From Ink.Shell Require Import FlowProofs FlowFrame FlowFootprint.
 
 Theorem switch_preserves_flows : forall (name k : text) (s : sstate) (f : flow),
   flows_ok s -> lookup_flow s k = Some f ->
@@ -51,3 +56,50 @@ Print Assumptions remove_flow_frame.
 (* non-vacuity: the initial state satisfies the invariant *)
 Example fresh_flows_ok : forall seed, flows_ok (sstate_new seed).
 Proof. intros seed. unfold flows_ok, sstate_new, named_of. cbn. repeat split; discriminate || reflexivity. Qed.
+
+(* ---------------- footprint of operations on the current flow ---------------- *)
+(* the code as written now: copy_and_start_patching does not touch named_flows
+   (now_no_alias : regenerated switch alias_current = false) *)
+Theorem current_flow_ops_commute_with_parked_flows :
+  forall (I : iface) (v : option (list (text * flow))) (op : cur_op) (w : world),
+    run_cur_op I sw_now op (uw v w) = (let (o, w') := run_cur_op I sw_now op w in (o, uw v w')).
+Proof. exact (fun I v op => cur_op_commutes I sw_now now_no_alias v op). Qed.
+Check current_flow_ops_commute_with_parked_flows :
+  forall (I : iface) (v : option (list (text * flow))) (op : cur_op) (w : world),
+    run_cur_op I sw_now op (uw v w) = (let (o, w') := run_cur_op I sw_now op w in (o, uw v w')).
+Print Assumptions current_flow_ops_commute_with_parked_flows.
+
+Theorem parked_flows_untouched :
+  forall (I : iface) (v : option (list (text * flow))) (ops : list cur_op) (w : world),
+    parked_are v w -> parked_are v (snd (run_ops I sw_now ops w)).
+Proof. exact (fun I => FlowFootprint.parked_flows_untouched I sw_now now_no_alias). Qed.
+Check parked_flows_untouched :
+  forall (I : iface) (v : option (list (text * flow))) (ops : list cur_op) (w : world),
+    parked_are v w -> parked_are v (snd (run_ops I sw_now ops w)).
+Print Assumptions parked_flows_untouched.
+
+Theorem parked_flows_irrelevant :
+  forall (I : iface) (v : option (list (text * flow))) (ops : list cur_op) (w : world),
+  fst (run_ops I sw_now ops (uw v w)) = fst (run_ops I sw_now ops w) /\
+  w_events (snd (run_ops I sw_now ops (uw v w))) = w_events (snd (run_ops I sw_now ops w)) /\
+  ss_flow (w_state (snd (run_ops I sw_now ops (uw v w)))) = ss_flow (w_state (snd (run_ops I sw_now ops w))) /\
+  ss_vars (w_state (snd (run_ops I sw_now ops (uw v w)))) = ss_vars (w_state (snd (run_ops I sw_now ops w))) /\
+  ss_visits (w_state (snd (run_ops I sw_now ops (uw v w)))) = ss_visits (w_state (snd (run_ops I sw_now ops w))) /\
+  ss_turns (w_state (snd (run_ops I sw_now ops (uw v w)))) = ss_turns (w_state (snd (run_ops I sw_now ops w))).
+Proof. exact (fun I => FlowFootprint.parked_flows_irrelevant I sw_now now_no_alias). Qed.
+Check parked_flows_irrelevant :
+  forall (I : iface) (v : option (list (text * flow))) (ops : list cur_op) (w : world),
+  fst (run_ops I sw_now ops (uw v w)) = fst (run_ops I sw_now ops w) /\
+  w_events (snd (run_ops I sw_now ops (uw v w))) = w_events (snd (run_ops I sw_now ops w)) /\
+  ss_flow (w_state (snd (run_ops I sw_now ops (uw v w)))) = ss_flow (w_state (snd (run_ops I sw_now ops w))) /\
+  ss_vars (w_state (snd (run_ops I sw_now ops (uw v w)))) = ss_vars (w_state (snd (run_ops I sw_now ops w))) /\
+  ss_visits (w_state (snd (run_ops I sw_now ops (uw v w)))) = ss_visits (w_state (snd (run_ops I sw_now ops w))) /\
+  ss_turns (w_state (snd (run_ops I sw_now ops (uw v w)))) = ss_turns (w_state (snd (run_ops I sw_now ops w))).
+Print Assumptions parked_flows_irrelevant.
+
+(* non-vacuity: a freshly constructed world has its (absent) parked flows in the required shape,
+   and so has any world between host calls whose look-ahead snapshot is gone *)
+Example fresh_world_parked : forall st seed fuel, parked_are None (world_init st seed fuel).
+Proof. intros. split; reflexivity. Qed.
+Example between_calls_parked : forall w, w_snapshot w = None -> parked_are (ss_named (w_state w)) w.
+Proof. intros w H. split; [reflexivity|]. now rewrite H. Qed.
